@@ -33,7 +33,6 @@ Section Group.
   Variables metric_ok lname_ok lvalue_ok dur_ok expr_ok tmpl_pint tmpl_prom dur_zero : string -> bool.
   Variables str_ok int_ok : node -> bool.
   Hypothesis H_str : forall n, n_kind n = KScalar -> n_tag n <> nullTag -> str_ok n = true.
-  Hypothesis H_int : forall n, n_kind n = KScalar -> n_tag n = intTag -> int_ok n = true.
   Hypothesis H_tmpl : forall s, tmpl_pint s = true -> tmpl_prom s = true.
   Hypothesis H_lname_empty : lname_ok "" = false.
   Hypothesis H_lvalue_empty : lvalue_ok "" = true.
@@ -50,7 +49,7 @@ Section Group.
     let key := node_value k in
     (key = "name" /\ scalar_with_tag v strTag = true /\ n_value v <> "") \/
     ((key = "interval" \/ key = "query_offset") /\ scalar_with_tag v strTag = true /\ dur_ok (n_value v) = true) \/
-    (key = "limit" /\ scalar_with_tag v intTag = true) \/
+    (key = "limit" /\ scalar_with_tag v intTag = true /\ int_ok v = true) \/
     (key = "labels" /\ n_tag v = mapTag /\ validate_string_map "labels" (mapping_nodes v) 0 (0, 0) = None /\
      bad_group_label lname_ok lvalue_ok (mapping_nodes v) = None) \/
     (key = "rules" /\ is_tag (n_tag v) seqTag = true).
@@ -104,24 +103,27 @@ Section Group.
   Proof. reflexivity. Qed.
 
   (** The loop of parseGroup over the pairs of a mapping, when it ends without an error. *)
-  Lemma group_loop_spec nl : forall ps g sk,
+  Lemma group_loop_spec im nl : forall ps g sk,
     (forall kv, In kv ps -> n_alias (fst kv) = None) ->
     g_error g = None ->
-    g_error (group_loop plines metric_ok lname_ok lvalue_ok dur_ok int_ok false lines nl g sk ps) = None ->
-    let G := group_loop plines metric_ok lname_ok lvalue_ok dur_ok int_ok false lines nl g sk ps in
+    g_error (group_loop plines metric_ok lname_ok lvalue_ok dur_ok int_ok false lines im nl g sk ps) = None ->
+    let G := group_loop plines metric_ok lname_ok lvalue_ok dur_ok int_ok false lines im nl g sk ps in
     (forall k v, In (k, v) ps -> group_pair_ok k v /\ ~ In (n_value k) sk) /\
     NoDup (map key_text ps) /\
     g_name G = (match find_key "name" ps with Some (_, v) => n_value v | None => g_name g end) /\
     g_labels G = (match find_key "labels" ps with Some (k, v) => Some (nym k v) | None => g_labels g end) /\
     g_rules G = g_rules g ++ (match find_key "rules" ps with Some (_, v) => map (PRS lines) (unpack_nodes v) | None => [] end) /\
-    (In "rules" (map key_text ps) \/ In "rules" sk -> In "name" (map key_text ps) \/ In "name" sk).
+    (im = true \/ In "rules" (map key_text ps) \/ In "rules" sk -> In "name" (map key_text ps) \/ In "name" sk).
   Proof.
     induction ps as [|[k v] r IH]; intros g sk Hna Hg HG; cbn [group_loop] in *.
-    - destruct (mem_str "rules" sk && negb (mem_str "name" sk))%bool eqn:C; [discriminate HG|].
+    - destruct ((mem_str "rules" sk || im) && negb (mem_str "name" sk))%bool eqn:C; [discriminate HG|].
       cbv zeta. split; [intros k v []|]. split; [constructor|]. split; [reflexivity|]. split; [reflexivity|].
-      split; [now rewrite app_nil_r|]. intros [[]|Hr]. right. apply mem_str_In in Hr. rewrite Hr in C. cbn in C. apply negb_false_iff in C. now apply mem_str_In.
+      split; [now rewrite app_nil_r|]. intros Hr. right.
+      assert (X : (mem_str "rules" sk || im)%bool = true).
+      { destruct Hr as [->|[[]|Hr]]; [apply orb_true_r|]. apply mem_str_In in Hr. now rewrite Hr. }
+      rewrite X in C. cbn [andb] in C. apply negb_false_iff in C. now apply mem_str_In.
     - destruct (GE g k v) as [g1|g1] eqn:E.
-      { exfalso. exact (group_entry_inl _ _ _ _ _ _ _ _ _ _ _ E HG). }
+      { exfalso. exact (group_entry_inl _ _ _ _ _ _ _ _ _ _ _ _ E HG). }
       destruct (mem_str (node_value k) sk) eqn:Dup; [discriminate HG|].
       pose proof (Hna (k, v) (or_introl eq_refl)) as Hka. cbn [fst] in Hka.
       rewrite (node_value_noalias k Hka) in *.
@@ -151,8 +153,8 @@ Section Group.
         * apply String.eqb_eq in Ek. rewrite find_key_none; [now rewrite app_nil_r|]. now rewrite <- Ek.
         * reflexivity.
       + cbn [map In]. change (key_text (k, v)) with (n_value k). intros H.
-        assert (H' : In "rules" (map key_text r) \/ In "rules" (n_value k :: sk)).
-        { destruct H as [[X|X]|X]; [right; left; exact X|left; exact X|right; right; exact X]. }
+        assert (H' : im = true \/ In "rules" (map key_text r) \/ In "rules" (n_value k :: sk)).
+        { destruct H as [X|[[X|X]|X]]; [left; exact X|right; right; left; exact X|right; left; exact X|right; right; right; exact X]. }
         destruct (I6 H') as [X|[X|X]]; [left; right; exact X|left; left; exact X|right; exact X].
   Qed.
 
@@ -176,14 +178,10 @@ Section Group.
     exists (a0 :: l). cbn [dec_items forallb]. rewrite E, El, Pa, Pl. split; reflexivity.
   Qed.
 
-  Definition named_group (gn : node) : Prop :=
-    n_kind gn = KMapping -> In "name" (map key_text (mapping_nodes gn)) \/ In "rules" (map key_text (mapping_nodes gn)).
-
   Notation rule_ok_prom := (rule_valid expr_ok dur_zero metric_ok lname_ok lvalue_ok tmpl_prom).
 
   Theorem group_sound gn :
-    plain_below gn -> named_group gn ->
-    (forall m, reach gn m -> no_null_strings m) ->
+    plain_below gn ->
     let g := PG lines gn in
     g_error g = None ->
     (forall r, In r (g_rules g) -> r_error r = None /\ rule_blocks expr_ok dur_ok tmpl_pint (g_labels g) r = false) ->
@@ -191,7 +189,7 @@ Section Group.
     (exists pg, dec_group str_ok int_ok dur_ok gn = DOk pg /\ pg_name pg = g_name g /\ g_name g <> "" /\
                 forallb (label_ok lname_ok lvalue_ok) (pg_labels pg) = true /\ forallb rule_ok_prom (pg_rules pg) = true).
   Proof.
-    intros Hp Hnamed Hnn g Hge Hrules. pose proof (plain_self gn Hp) as Hgn.
+    intros Hp g Hge Hrules. pose proof (plain_self gn Hp) as Hgn.
     unfold g, parse_group in *. clear g.
     destruct (negb (is_tag (n_tag gn) mapTag)) eqn:Et; [discriminate Hge|]. apply negb_false_iff in Et.
     destruct (n_kind gn) eqn:K; try (destruct Hgn as [_ X]; rewrite K in X; contradiction).
@@ -201,8 +199,9 @@ Section Group.
       right. set (ps := mapping_nodes gn) in *.
       assert (Hna : forall kv, In kv ps -> n_alias (fst kv) = None).
       { intros [k x] Hin. destruct (plain_pairs gn k x Hp Hin) as [Hpk _]. exact (proj1 (plain_self k Hpk)). }
-      destruct (group_loop_spec (n_line gn) ps empty_group [] Hna eq_refl Hge) as (F1 & F2 & F3 & F4 & F5 & F6).
-      set (G := group_loop plines metric_ok lname_ok lvalue_ok dur_ok int_ok false lines (n_line gn) empty_group [] ps) in *.
+      change (kind_eqb KMapping KMapping) with true in *.
+      destruct (group_loop_spec true (n_line gn) ps empty_group [] Hna eq_refl Hge) as (F1 & F2 & F3 & F4 & F5 & F6).
+      set (G := group_loop plines metric_ok lname_ok lvalue_ok dur_ok int_ok false lines true (n_line gn) empty_group [] ps) in *.
       cbn [empty_group g_name g_labels g_rules app] in F3, F4, F5.
       set (a := map (fun kv => (key_text kv, snd kv)) ps).
       (* keys *)
@@ -239,9 +238,7 @@ Section Group.
             assert (Hr : In (PRS lines rn) (g_rules G)).
             { rewrite F5. apply in_map. rewrite (unpack_plain vr Hpv). exact Hrn. }
             destruct (Hrules _ Hr) as [He Hb].
-            eapply rule_sound; eauto.
-            apply Hnn. eapply reach_content; [exact (proj2 (mapping_nodes_l_In _ _ _ Hin))|].
-            eapply reach_content; [exact Hrn|apply reach_refl]. }
+            eapply rule_sound; eauto. }
           exists prs. left. rewrite E1. split; [reflexivity|exact E2]. }
       (* the labels value *)
       assert (HL : match find_key "labels" ps with
@@ -276,7 +273,7 @@ Section Group.
         assert (Hsc : forall tag, scalar_with_tag x tag = true -> n_kind x = KScalar /\ n_tag x = tag).
         { intros tag Hs. unfold scalar_with_tag in Hs. apply andb_true_iff in Hs. destruct Hs as [A B].
           split; [now apply kind_eqb_eq|now apply String.eqb_eq]. }
-        destruct Hok as [(E & Hs & Hne)|[([E|E] & Hs & Hd)|[(E & Hs)|[(E & T & Hval & Hbad)|(E & Ht)]]]]; rewrite E in Herr; cbn in Herr.
+        destruct Hok as [(E & Hs & Hne)|[([E|E] & Hs & Hd)|[(E & Hs & Hi)|[(E & T & Hval & Hbad)|(E & Ht)]]]]; rewrite E in Herr; cbn in Herr.
         - destruct (Hsc _ Hs) as [Kx Tx].
           rewrite (dec_string_scalar str_ok H_str x Hx Kx), Tx in Herr. cbn in Herr. discriminate.
         - destruct (Hsc _ Hs) as [Kx Tx]. unfold dec_duration in Herr.
@@ -284,7 +281,7 @@ Section Group.
         - destruct (Hsc _ Hs) as [Kx Tx]. unfold dec_duration in Herr.
           rewrite (dec_string_scalar str_ok H_str x Hx Kx), Tx in Herr. cbn in Herr. rewrite Hd in Herr. discriminate.
         - destruct (Hsc _ Hs) as [Kx Tx]. unfold dec_int in Herr. rewrite (deref_plain x (proj1 Hx)), Tx in Herr.
-          cbn [String.eqb Ascii.eqb Bool.eqb] in Herr. rewrite Kx, (H_int x Kx Tx) in Herr. discriminate.
+          cbn [String.eqb Ascii.eqb Bool.eqb] in Herr. rewrite Kx, Hi in Herr. discriminate.
         - assert (Fl : find_key "labels" ps = Some (k, x)).
           { destruct (find_key "labels" ps) as [[k' x']|] eqn:Fl.
             - destruct (find_key_In _ _ _ _ Fl) as [Hin' Ek'].
@@ -301,7 +298,7 @@ Section Group.
           rewrite Fr in HR. destruct HR as (prs & [(Er & _)|(Er & _)]); rewrite Er in Herr; discriminate. }
       (* the name *)
       assert (Hname_in : In "name" (map key_text ps)).
-      { destruct (Hnamed K) as [X|X]; [exact X|]. destruct (F6 (or_introl X)) as [Y|[]]. exact Y. }
+      { destruct (F6 (or_introl eq_refl)) as [Y|[]]. exact Y. }
       destruct (find_key "name" ps) as [[kn vn]|] eqn:Fn; [|exfalso; exact (find_none_iff _ _ Fn Hname_in)].
       destruct (find_key_In _ _ _ _ Fn) as [Hinn Ekn]. destruct (F1 kn vn Hinn) as [Hokn _].
       destruct (plain_pairs gn kn vn Hp Hinn) as [_ Hpvn]. pose proof (plain_self vn Hpvn) as Hvn.
@@ -342,7 +339,7 @@ Section Group.
   Qed.
 
   Lemma groups_seq_sound : forall items names acc names' acc' seen,
-    (forall gn, In gn items -> plain_below gn /\ named_group gn /\ forall m, reach gn m -> no_null_strings m) ->
+    (forall gn, In gn items -> plain_below gn) ->
     groups_of_seq plines metric_ok lname_ok lvalue_ok dur_ok int_ok false lines items names acc = inr (names', acc') ->
     (forall gn, In gn items -> pint_group_ok (PG lines gn)) ->
     (forall s, In s seen -> In s names) ->
@@ -351,8 +348,8 @@ Section Group.
     induction items as [|gn r IH]; intros names acc names' acc' seen Hg H Hok Hseen; cbn [groups_of_seq] in H.
     - exists []. split; reflexivity.
     - destruct (mem_str (g_name (PG lines gn)) names) eqn:Dup; [discriminate|].
-      destruct (Hg gn (or_introl eq_refl)) as (Hp & Hn & Hnn). destruct (Hok gn (or_introl eq_refl)) as (He & Hr).
-      destruct (group_sound gn Hp Hn Hnn He Hr) as [(Ed & En)|(pg & Ed & En & Hne & Hl & Hrv)].
+      pose proof (Hg gn (or_introl eq_refl)) as Hp. destruct (Hok gn (or_introl eq_refl)) as (He & Hr).
+      destruct (group_sound gn Hp He Hr) as [(Ed & En)|(pg & Ed & En & Hne & Hl & Hrv)].
       + destruct (IH _ _ _ _ seen (fun g0 Hg0 => Hg g0 (or_intror Hg0)) H (fun g0 Hg0 => Hok g0 (or_intror Hg0))) as (pgs & E1 & E2).
         { intros s0 Hs0. right. exact (Hseen s0 Hs0). }
         exists pgs. cbn [dec_items]. rewrite Ed, E1. split; [reflexivity|exact E2].
@@ -373,7 +370,6 @@ Section Doc.
   Variables metric_ok lname_ok lvalue_ok dur_ok expr_ok tmpl_pint tmpl_prom dur_zero : string -> bool.
   Variables str_ok int_ok : node -> bool.
   Hypothesis H_str : forall n, n_kind n = KScalar -> n_tag n <> nullTag -> str_ok n = true.
-  Hypothesis H_int : forall n, n_kind n = KScalar -> n_tag n = intTag -> int_ok n = true.
   Hypothesis H_tmpl : forall s, tmpl_pint s = true -> tmpl_prom s = true.
   Hypothesis H_lname_empty : lname_ok "" = false.
   Hypothesis H_lvalue_empty : lvalue_ok "" = true.
@@ -385,9 +381,7 @@ Section Doc.
   (** ---- the document ---- *)
   Definition guards_doc (d : node) : Prop :=
     n_kind d = KDocument /\
-    exists root, n_content d = [root] /\ plain_below root /\
-                 (forall m, reach root m -> no_null_strings m) /\
-                 (forall k v gn, In (k, v) (mapping_nodes root) -> In gn (n_content v) -> named_group gn).
+    exists root, n_content d = [root] /\ plain_below root.
 
   Notation blocks := (strict_blocks expr_ok dur_ok tmpl_pint).
   Notation PS := (parse_strict plines metric_ok lname_ok lvalue_ok dur_ok int_ok false).
@@ -422,7 +416,7 @@ Section Doc.
   Theorem doc_sound d nl :
     guards_doc d -> blocks (PS lines [(d, nl)] None) = false -> accepts [d] = true.
   Proof.
-    intros (Kd & root & Cd & Hp & Hnn & Hnamed) Hb.
+    intros (Kd & root & Cd & Hp) Hb.
     destruct (blocks_false_inv _ Hb) as [Hfe Hgs]. clear Hb.
     fold (pint_group_ok dur_ok expr_ok tmpl_pint) in Hgs.
     unfold parse_strict in *. cbn [parse_strict_loop] in *.
@@ -453,7 +447,7 @@ Section Doc.
         destruct (negb (node_value k =? "groups")) eqn:E2; [discriminate GE|]. apply negb_false_iff, String.eqb_eq in E2.
         destruct (negb (is_tag (n_tag v) seqTag)) eqn:E3; [discriminate GE|]. apply negb_false_iff in E3.
         destruct (groups_of_seq plines metric_ok lname_ok lvalue_ok dur_ok int_ok false L (unpack_nodes v) [] []) as [e|[n2 a2]] eqn:GS; [discriminate GE|].
-        pose proof (groups_of_entries_true _ _ _ _ _ _ _ _ _ _ _ GE) as Hrest. subst rest.
+        pose proof (groups_of_entries_true _ _ _ _ _ _ _ _ _ _ _ _ GE) as Hrest. subst rest.
         cbn [groups_of_entries] in GE. inversion GE; subst n1 gs. clear GE.
         assert (Hin : In (k, v) (mapping_nodes root)) by (fold ps; rewrite Eps; left; reflexivity).
         destruct (plain_pairs root k v Hp Hin) as [Hpk Hpv].
@@ -475,12 +469,10 @@ Section Doc.
         * rewrite T. reflexivity.
         * pose proof (plain_seq_tag v Hv T) as Kv. rewrite T. cbn [String.eqb Ascii.eqb Bool.eqb]. rewrite Kv.
           rewrite (unpack_plain v Hpv) in GS.
-          pose proof (groups_of_seq_spec _ _ _ _ _ _ _ _ _ _ _ GS) as Ha2. cbn [app] in Ha2.
+          pose proof (groups_of_seq_spec _ _ _ _ _ _ _ _ _ _ _ _ GS) as Ha2. cbn [app] in Ha2.
           destruct (groups_seq_sound plines metric_ok lname_ok lvalue_ok dur_ok expr_ok tmpl_pint tmpl_prom dur_zero str_ok int_ok
-                                     H_str H_int H_tmpl H_lname_empty H_lvalue_empty H_tmpl_empty L (n_content v) [] [] n2 a2 []) as (pgs & E1' & E2'); auto.
-          { intros gn Hgn. split; [eapply plain_below_content; eassumption|]. split; [exact (Hnamed k v gn (or_introl eq_refl) Hgn)|].
-            intros m Hm. apply Hnn. eapply reach_content; [exact (proj2 (mapping_nodes_l_In _ _ _ Hin))|].
-            eapply reach_content; [exact Hgn|exact Hm]. }
+                                     H_str H_tmpl H_lname_empty H_lvalue_empty H_tmpl_empty L (n_content v) [] [] n2 a2 []) as (pgs & E1' & E2'); auto.
+          { intros gn Hgn. eapply plain_below_content; eassumption. }
           { intros gn Hgn. apply Hgs. rewrite Ha2. apply in_map. exact Hgn. }
           change (String.eqb seqTag nullTag) with false. cbv iota.
           rewrite E1'. exact E2'.
